@@ -8,7 +8,8 @@ COMMON_ASSUME = [
 
 PROPS = {
     'C01': dict(
-        runs=[dict(src='c01_roundtrip.c')],
+        runs=[dict(src='c01_roundtrip.c'),
+              dict(src='c01_roundtrip.c', variant='vg', tool='memcheck', args_quick=['--stride', '16'], args_thorough=['--stride', '40'])],
         level='exploration',
         rule=('case = (container, encoding, endian option, channels, caller type, N, generator) enumerated from the library\'s own '
               'format lists; write N frames, close, re-open, read with the same type, memcmp. distinct = hash of those parameters; '
@@ -18,7 +19,8 @@ PROPS = {
         floor={'quick': 1000, 'thorough': 10000},
     ),
     'C04': dict(
-        runs=[dict(src='c04_closed_file.c'), dict(src='c04_big_files.c')],
+        runs=[dict(src='c04_closed_file.c'), dict(src='c04_big_files.c'),
+              dict(src='c04_closed_file.c', variant='vg', tool='memcheck', args_quick=['--stride', '20'], args_thorough=['--stride', '40'])],
         level='exploration',
         rule=('case = (container, encoding, endian, channels, sample rate, N, write partition, garbage in SF_INFO.frames at open); write, close, '
               're-open: compare channels/format/byte order/rate (quantised by the container\'s documented unit), N <= F < N+B, read-to-EOF == F, '
@@ -31,7 +33,8 @@ PROPS = {
         floor={'quick': 1000, 'thorough': 10000},
     ),
     'C05': dict(
-        runs=[dict(src='c05_rw_contract.c')],
+        runs=[dict(src='c05_rw_contract.c'),
+              dict(src='c05_rw_contract.c', variant='vg', tool='memcheck', args_quick=['--stride', '10'], args_thorough=['--stride', '10'])],
         level='exploration',
         rule=('case = (container, encoding, channels, sample type, item/frame variant) x {read, write}; each read case checks ~6 positions x ~16 request '
               'sizes against one sequential reference read, with exact-size canary-filled buffers under ASan and positions from the read-only hook; '
@@ -41,7 +44,8 @@ PROPS = {
         floor={'quick': 500, 'thorough': 1000},
     ),
     'C06': dict(
-        runs=[dict(src='c06_seek_partition.c')],
+        runs=[dict(src='c06_seek_partition.c'),
+              dict(src='c06_seek_partition.c', variant='vg', tool='memcheck', args_quick=['--stride', '12'], args_thorough=['--stride', '24'])],
         level='exploration',
         rule=('case = one walk on one handle of a generated file (container, encoding, channels, walk seed): either a pure partition walk (reads only, '
               'random sizes/types/variants to EOF) or a seek+read walk (400 steps quick / 5000 thorough). Every read is compared with the per-type sequential '
@@ -65,7 +69,8 @@ PROPS = {
         floor={'quick': 500, 'thorough': 1000},
     ),
     'C13': dict(
-        runs=[dict(src='c13_chunks.c')],
+        runs=[dict(src='c13_chunks.c'),
+              dict(src='c13_chunks.c', variant='vg', tool='memcheck', args_quick=['--stride', '6'], args_thorough=['--stride', '60'])],
         level='exploration',
         rule=('case = (container in WAV/WAVEX/RF64/AIFF/CAF, encoding, channels, chunk count from a list crossing every capacity step 0..200, '
               'id scheme {distinct, duplicates, 1-4 chars, reserved ids, random}, payload-length scheme {0,1,2,3,4,5,7,8,255,256,1023,4095 | random | fixed | '
@@ -77,7 +82,8 @@ PROPS = {
         floor={'quick': 300, 'thorough': 1000},
     ),
     'C07': dict(
-        runs=[dict(src='c07_write_determinism.c', ldflags='-Wl,--wrap=time,--wrap=gettimeofday')],
+        runs=[dict(src='c07_write_determinism.c', ldflags='-Wl,--wrap=time,--wrap=gettimeofday'),
+              dict(src='c07_write_determinism.c', ldflags='-Wl,--wrap=time,--wrap=gettimeofday', variant='vg', tool='memcheck', args_quick=['--stride', '6'], args_thorough=['--stride', '40'])],
         level='exploration',
         rule=('case = (container, encoding, channels, sample type, N, signal, metadata on/off); the file written by ONE call with the clock pinned is '
               'compared byte for byte with 9 variants: 1-frame calls, small odd sizes, B-1/B/B+1, > staging buffer, mixed item/frame sizes, '
@@ -101,7 +107,8 @@ PROPS = {
         floor={'quick': 200, 'thorough': 500},
     ),
     'C02': dict(
-        runs=[dict(src='c02_conversions.c'), dict(src='c02_conversions.c', variant='nosse', shards=8), dict(src='c02_conversions.c', variant='fast', shards=8, thorough_only=True)],
+        runs=[dict(src='c02_conversions.c'), dict(src='c02_conversions.c', variant='nosse', shards=8), dict(src='c02_conversions.c', variant='fast', shards=8, thorough_only=True),
+              dict(src='c02_conversions.c', variant='vg', tool='memcheck', args_quick=['--stride', '24'], args_thorough=['--stride', '24'])],
         level='exploration',
         rule=('case = (container, encoding in 8/16/24/32-bit PCM, float, double, u-law, A-law, byte order, direction write|read, caller type, settings: '
               'norm on/off, clipping, SCALE_INT_FLOAT_WRITE, SCALE_FLOAT_INT_READ). write: ~65536 values (all shorts; ints; float grid, rounding ties, '
@@ -116,7 +123,8 @@ PROPS = {
         timeout={'quick': 3000, 'thorough': 14000},
     ),
     'C03': dict(
-        runs=[dict(src='c03_hostile_input.c', ldflags='-Wl,--wrap=read,--wrap=lseek')],
+        runs=[dict(src='c03_hostile_input.c', ldflags='-Wl,--wrap=read,--wrap=lseek'),
+              dict(src='c03_hostile_input.c', ldflags='-Wl,--wrap=read,--wrap=lseek', variant='vg', tool='memcheck', args_quick=['--stride', '80'], args_thorough=['--stride', '120'])],
         level='exploration',
         rule=('case = one input = (corpus file written by the library for a format/channels/metadata level, mutation recipe) or random bytes; 100 inputs per '
               'corpus file quick, 1500 thorough: unmodified, ~40 truncations (dense in the header, 97-byte steps in the data), 1-4 stacked mutations from '
@@ -171,7 +179,8 @@ PROPS = {
         timeout={'quick': 3000, 'thorough': 20000},
     ),
     'C11': dict(
-        runs=[dict(src='c11_header_update.c'), dict(src='c11_big_files.c')],
+        runs=[dict(src='c11_header_update.c'), dict(src='c11_big_files.c'),
+              dict(src='c11_header_update.c', variant='vg', tool='memcheck', args_quick=['--stride', '40'], args_thorough=['--stride', '24'])],
         level='fault_enumeration',
         rule=('case = (container with a header, encoding except ALAC, channels, update mode in {SFC_UPDATE_HEADER_NOW after every call, '
               'SFC_SET_UPDATE_HEADER_AUTO, sf_write_raw + auto, sf_write_raw + explicit}, write pattern in {1-7 frames, around one block, > staging buffer, mixed}, '
@@ -186,7 +195,8 @@ PROPS = {
         floor={'quick': 500, 'thorough': 2000},
     ),
     'C12': dict(
-        runs=[dict(src='c12_metadata.c')],
+        runs=[dict(src='c12_metadata.c'),
+              dict(src='c12_metadata.c', variant='vg', tool='memcheck', args_quick=['--stride', '6'], args_thorough=['--stride', '60'])],
         level='exploration',
         rule=('case = (container in WAV, WAVEX, RF64, AIFF, CAF, AU, W64, big-endian WAV; encoding; channels; subset of {strings, bext, cart, cues, instrument, '
               'channel map} set BEFORE audio in shuffled order with random field contents at boundary lengths (strings 1..600 bytes, full-width bext/cart fields, '
@@ -211,7 +221,8 @@ PROPS = {
         floor={'quick': 5000, 'thorough': 20000},
     ),
     'C18': dict(
-        runs=[dict(src='c18_peak_signal_max.c')],
+        runs=[dict(src='c18_peak_signal_max.c'),
+              dict(src='c18_peak_signal_max.c', variant='vg', tool='memcheck', args_quick=['--stride', '30'], args_thorough=['--stride', '300'])],
         level='exploration',
         rule=('part A: case = (PEAK container in WAV/WAVEX/AIFF/CAF/RF64, float|double, channels in {1,2,5,8,3}, write type in 4, sequence in {max at first frame, last '
               'frame, at the 2048-item staging boundary, middle, tied maxima, silence}, partition in 6); after re-open SFC_GET_SIGNAL_MAX / MAX_ALL_CHANNELS and the PEAK '
@@ -222,7 +233,8 @@ PROPS = {
         floor={'quick': 300, 'thorough': 1000},
     ),
     'C20': dict(
-        runs=[dict(src='c20_codec_kernels.c'), dict(src='c20_codec_kernels.c', variant='fast', thorough_only=True)],
+        runs=[dict(src='c20_codec_kernels.c'), dict(src='c20_codec_kernels.c', variant='fast', thorough_only=True),
+              dict(src='c20_codec_kernels.c', variant='vg', tool='memcheck', args_quick=['--stride', '24'], args_thorough=['--stride', '48'])],
         level='exploration',
         rule=('(1) G.711 exhaustive: 256 codes x 4 read types and 65536 inputs x 4 write types for mu-law and A-law vs an arithmetic reference written from '
               'ITU-T G.711; (2) IEEE serialisers via SFC_TEST_IEEE_FLOAT_REPLACE, both byte orders: floats - quick 2^24 patterns (every sign/exponent, stride 251 '
@@ -251,7 +263,8 @@ PROPS = {
         floor={'quick': 200, 'thorough': 1000},
     ),
     'C14': dict(
-        runs=[dict(src='c14_routes.c', ldflags='-Wl,--wrap=time,--wrap=gettimeofday')],
+        runs=[dict(src='c14_routes.c', ldflags='-Wl,--wrap=time,--wrap=gettimeofday'),
+              dict(src='c14_routes.c', ldflags='-Wl,--wrap=time,--wrap=gettimeofday', variant='vg', tool='memcheck', args_quick=['--stride', '8'], args_thorough=['--stride', '60'])],
         level='exploration',
         rule=('case = (format, channels, variant): one generated file (16 variants = subsets of {strings, 52-82 KB JUNK chunk spliced in before the audio, truncated tail, damaged '
               'header byte}) opened through virtual I/O (reference), path, descriptor with close_desc 0 and 1, descriptor positioned at offsets 1/7/4096 inside a '
